@@ -13,6 +13,19 @@ def run(ctx):
     except ImportError:
         pass
     ctx.pyvc(units, MONITORS)
+    # A3 (identifier renaming commutes with evaluation) rests on PrintNodeIdentifier printing the same structure as the
+    # verified PrintNode: it may override visit_Identifier only
+    import ast as _ast
+    import os as _os
+    from checklib import REPO
+    tree = _ast.parse(open(_os.path.join(REPO, "shroud/todict.py")).read())
+    for n in tree.body:
+        if isinstance(n, _ast.ClassDef) and n.name == "PrintNodeIdentifier":
+            methods = sorted(m.name for m in n.body if isinstance(m, _ast.FunctionDef))
+            for m in methods:
+                ctx.item("C11/PrintNodeIdentifier/overrides:%s" % m, m in ("__init__", "visit_Identifier"),
+                         "PrintNodeIdentifier overrides %s: the structural printer methods verified on PrintNode no longer apply "
+                         "to enum value expressions" % m, sample={"class": "PrintNodeIdentifier", "method": m})
     ctx.trusted += [
         "oracles written from the standards: A1 decimal literal without leading zero evaluates to int(text); A1o a "
         "leading-zero literal is octal in C++; A2 EVAL(e + '+' + k) == EVAL(e) + k; A3 print_node_identifier renders an "
